@@ -98,7 +98,7 @@ func c16Fresh(root string, m c16Model) (*interpreter.Interpreter, error) {
 	return it, nil
 }
 
-var c16Preds = []string{"fa", "ga", "ha", "ta", "fb", "gb", "hb", "tb", "fc", "gc", "hc", "tc", "i0", "i1", "i2", "i3", "i4", "d0", "nope", "bad", "n0", "dz", "zd", "ze", "tz", "inv.item", "inv.big", "item", "cfg.port", "port"}
+var c16Preds = []string{"fa", "ga", "ha", "ta", "fb", "gb", "hb", "tb", "fc", "gc", "hc", "tc", "i0", "i1", "i2", "i3", "i4", "d0", "nope", "bad", "n0", "dz", "zd", "ze", "tz", "inv.item", "inv.big", "item", "cfg.port", "port", "nz", "nzd", "up", "uq", "ub", "em"}
 
 // c16Observe renders what queries show: per predicate name either "unknown" or the sorted result set.
 func c16Observe(it *interpreter.Interpreter) (map[string]string, string) {
@@ -194,6 +194,11 @@ func runC16(r *simrt.Run, tier Tier) Outcome {
 	files["unsafe.mg"] = "fz(/k1).\nbad(Y) :- fz(Z).\n"
 	// a source that lives in a package: its predicates are installed under qualified names
 	files["pk.mg"] = "Package inv!\nitem(/k1).\nitem(/k2).\nbig(X) :- item(X).\n"
+	// files that pass analysis and fail when they are evaluated
+	files["evalfail.mg"] = "nz(0).\nnz(3).\nnzd(X) :- nz(Y), X = fn:div(6, Y).\n"
+	files["unstrat.mg"] = "ub(/k1).\nup(X) :- ub(X), !uq(X).\nuq(X) :- up(X).\n"
+	// a file that may be loaded any number of times
+	files["empty.mg"] = "# nothing here\n"
 	files["bounds.mg"] = "Decl fy(A) bound [/number].\nfy(/k1).\n"
 	for name, text := range files {
 		if err := os.WriteFile(filepath.Join(root, name), []byte(text), 0o644); err != nil {
@@ -212,7 +217,7 @@ func runC16(r *simrt.Run, tier Tier) Outcome {
 		// rejected ones
 		"i0(/x", "i3(Y) :- nope(Y).", "fa(/k1, /k2).", "ga(/k9).", "bad(Y) :- i0(Z).", "i1(Y) :- fa(Y), Y < /k1.",
 	}
-	loads := []string{"a.mg", "b.mg", "c.mg", "decls.mg", "temporal.mg", "decls.mg", "temporal.mg", "a.mg,b.mg", "b.mg,c.mg", "pk.mg", "pk.mg", "missing.mg", "syntax.mg", "unsafe.mg", "bounds.mg", "a.mg,missing.mg"}
+	loads := []string{"a.mg", "b.mg", "c.mg", "decls.mg", "temporal.mg", "decls.mg", "temporal.mg", "a.mg,b.mg", "b.mg,c.mg", "pk.mg", "pk.mg", "evalfail.mg", "unstrat.mg", "empty.mg", "empty.mg", "empty.mg", "missing.mg", "syntax.mg", "unsafe.mg", "bounds.mg", "a.mg,missing.mg"}
 
 	it := interpreter.New(io.Discard, root, nil)
 	model := c16Model{}
